@@ -165,13 +165,13 @@ func init() {
 	}
 }
 
-// enumShape returns configuration j of the exhaustive family of C05: 8 small shapes x all
+// enumShape returns configuration j of the exhaustive family of C05: 9 small shapes x all
 // 4^3 assignments of {unset, shared, contextual, non_shared} to (a, b, c).
 func enumShape(j int) *gen.Cfg {
 	scopes := []string{"", "shared", "contextual", "non_shared"}
 	// a fixed permutation of the family, so that any prefix samples all shapes and assignments
 	j = (j * 37) % EnumFamily
-	shape, as := j%8, j/8
+	shape, as := j%9, j/9
 	sc := []string{scopes[as%4], scopes[(as/4)%4], scopes[(as/16)%4]}
 	fx := `"` + gen.FxPath + `"`
 	node := func(name string, scope string, args ...gen.Arg) gen.Svc {
@@ -198,6 +198,10 @@ func enumShape(j int) *gen.Cfg {
 		b.Calls = []gen.Call{{Method: "WithA", Args: []gen.Arg{ref("c")}, Wither: true}}
 		c.Services = []gen.Svc{a, b, node("c", sc[2])}
 		c.Decorators = []gen.Dec{{Tag: "t", Fn: fx + ".Decorate", Args: []gen.Arg{ref("b")}}}
+	case 8: // two calls: the first injects b, the second c
+		a := node("a", sc[0])
+		a.Calls = []gen.Call{{Method: "SetA", Args: []gen.Arg{ref("b")}}, {Method: "SetB", Args: []gen.Arg{ref("c")}}}
+		c.Services = []gen.Svc{a, node("b", sc[1]), node("c", sc[2])}
 	case 7: // a bare value with a typed getter, decorated by a decorator that takes b; c hangs off b
 		a := gen.Svc{Name: "a", Value: "&" + fx + ".Node{}", Scope: sc[0], Getter: "GetA", Type: "*" + fx + ".Node"}
 		yes := true
@@ -225,7 +229,7 @@ func enumShape(j int) *gen.Cfg {
 }
 
 // EnumFamily is the size of the exhaustive C05 family: 7 shapes x 4^3 scope assignments.
-const EnumFamily = 8 * 64
+const EnumFamily = 9 * 64
 
 // enumCfg15 is the small configuration whose histories C15 enumerates exhaustively.
 func enumCfg15() *gen.Cfg {
@@ -234,6 +238,7 @@ func enumCfg15() *gen.Cfg {
 		Params: []gen.Param{
 			{Name: "p1", V: gen.Arg{Kind: "pattern", Chunks: []gen.Chunk{{Kind: "todo", HasDef: true, Def: "quota reached: 90% of %d (see %s)"}}}},
 			{Name: "p4", V: gen.Arg{Kind: "pattern", Chunks: []gen.Chunk{{Kind: "todo"}}}},
+			{Name: "p5", V: gen.Arg{Kind: "pattern", Chunks: []gen.Chunk{{Kind: "todo", HasDef: true, Def: ""}}}},
 			{Name: "p2", V: gen.Arg{Kind: "pattern", Chunks: []gen.Chunk{{Kind: "ref", S: "p1"}, {Kind: "lit", S: "-x"}}}},
 			{Name: "p3", V: gen.Arg{Kind: "int", I: 7}},
 		},
@@ -295,6 +300,12 @@ func GenBatch(t Target, prop string, seed uint64, n int, outdir string, nenum in
 		if danglingFlag {
 			w.Flags = append(w.Flags, "--ignore-missing-services")
 		}
+		stubFlag := false
+		if prop == "C05" && ((i >= n && (i-n)%5 == 2) || (i < n && src.Chance("c05.stub", 1, 5))) {
+			// the scope verdict is the same for a stub (which cannot be run: verdict only)
+			w.Flags = append(w.Flags, "--stub")
+			stubFlag = true
+		}
 		r := Exec(t, w)
 		out.Builds++
 		if v := verdict(prop, w, r); v != nil {
@@ -310,7 +321,7 @@ func GenBatch(t Target, prop string, seed uint64, n int, outdir string, nenum in
 				}
 			}
 		}
-		if danglingFlag {
+		if danglingFlag || stubFlag {
 			it.NoRun = true
 		}
 		out.Items = append(out.Items, it)
